@@ -8,6 +8,7 @@ sys.path.insert(0, str(VERIF))
 ALL = [f"C{i:02d}" for i in range(1, 19)]
 PENDING_REASON = "check not yet registered in this revision (under construction; see DESIGN.md §8 for the order)"
 
+READY = set((VERIF / "tools" / "ready.txt").read_text().split())  # checks the coordinator has accepted
 checks, na = [], []
 for pid in ALL:
     f = VERIF / "harness" / "props" / f"{pid.lower()}.py"
@@ -17,7 +18,7 @@ for pid in ALL:
             m = importlib.import_module(f"harness.props.{pid.lower()}")
         except Exception as e:  # pragma: no cover
             print("cannot import", pid, e, file=sys.stderr)
-    if m is None or not hasattr(m, "MANIFEST"):
+    if m is None or not hasattr(m, "MANIFEST") or pid not in READY:
         na.append({"property_id": pid, "reason": PENDING_REASON})
         continue
     M = m.MANIFEST
